@@ -332,3 +332,58 @@ def soft_catcher(path, secs=10):
             if seen >= 1 and time.time() - t0 > 1.6:
                 break
     return ('caught', seen, os.getpid())
+
+
+# ---- C17 real-process parties ------------------------------------------------------------
+def sync_consumer(cond, items, inside, bad, done, out, timed):
+    """takes items under the condition until told that production is over; checks mutual
+    exclusion of the condition's lock on the way"""
+    got = waits = timeouts = 0
+    while True:
+        with cond:
+            inside.value += 1
+            if inside.value != 1:
+                bad.value += 1
+            while items.value == 0 and not done.value:
+                inside.value -= 1
+                waits += 1
+                r = cond.wait(0.05) if timed else cond.wait()
+                if timed and not r:
+                    timeouts += 1
+                inside.value += 1
+                if inside.value != 1:
+                    bad.value += 1
+            if items.value > 0:
+                items.value -= 1
+                got += 1
+                fin = False
+            else:
+                fin = True
+            inside.value -= 1
+        if fin:
+            break
+    out.send((got, waits, timeouts))
+    out.close()
+
+
+def sync_sem_user(sem, holders, peak, over, n, out):
+    """n times: take the (bounded) semaphore, note how many hold it, give it back"""
+    for _ in range(n):
+        sem.acquire()
+        with holders.get_lock():
+            holders.value += 1
+            if holders.value > peak.value:
+                peak.value = holders.value
+        time.sleep(0.001)
+        with holders.get_lock():
+            holders.value -= 1
+        sem.release()
+    out.send('done')
+    out.close()
+
+
+def sync_event_waiter(ev, out):
+    t0 = time.monotonic()
+    r = ev.wait(20)
+    out.send((bool(r), time.monotonic() - t0))
+    out.close()
